@@ -160,6 +160,11 @@ theorem slotsSame_genPair (s : State) (h m : Nat) (p v : Template) (o : RV) : Sl
   unfold stepGenPair
   repeat' (first | exact slotsSame_rOnly _ _ | exact slotsSame_genPairFinish .. | apply slotsSame_ite | split | extract_lets)
 
+theorem Adds.slots {s : State} {r : State × Resp} (h : Adds s r) : r.1.slots = s.slots := by
+  rcases h with h | ⟨slot, hh, t, p, a, h⟩
+  · exact h.2.2
+  · rw [h]; rfl
+
 theorem pinsKept_stepOp (s : State) (c : OpCall) : PinsKept s (stepOp s c).1 := by
   cases c <;> simp only [stepOp]
   case cfgMechs => exact pinsKept_same rfl
@@ -180,6 +185,9 @@ theorem pinsKept_stepOp (s : State) (c : OpCall) : PinsKept s (stepOp s c).1 := 
   case verifyFinal => exact pinsKept_same (onlyHandles_verify ..).2.2.1
   case genKey => exact pinsKept_same (slotsSame_genKey ..)
   case genPair => exact pinsKept_same (slotsSame_genPair ..)
+  case wrap => exact pinsKept_same (by rw [adds_wrap])
+  case unwrap => exact pinsKept_same (adds_unwrap ..).slots
+  case derive => exact pinsKept_same (adds_derive ..).slots
 
 theorem pinsKept_restart (s : State) : PinsKept s (stepRestart s).1 := by
   have := pinsKept_finalize { s with initialised := true }
